@@ -12,7 +12,12 @@ import translate_solver as ts
 import translate_pickle as tp
 
 THEOREMS = ["Claripy.Props.C18.C18_plan_matches_model", "Claripy.Props.C18.C18_restore_keeps", "Claripy.Props.C18.C18_restore_resets",
-            "Claripy.Props.C18.C18_restore_woAnnot", "Claripy.Props.C18.C18_restore_idempotent"]
+            "Claripy.Props.C18.C18_restore_woAnnot", "Claripy.Props.C18.C18_restore_idempotent",
+            # the round trip keeps the full C11 invariant SI; a restored solver continues any history like the original
+            "Claripy.Props.C18.C18_restore_keeps_invariant", "Claripy.Props.C18.C18_child_restore_keeps_invariant",
+            "Claripy.Props.C18.C18_pickle_step_keeps_world", "Claripy.Props.C18.C18_restored_continues",
+            "Claripy.Props.C18.C18_restored_same_verdict", "Claripy.Props.C18.C18_restored_twin",
+            "Claripy.Solver.si_pickle", "Claripy.Solver.tinvS_append_restored", "Claripy.Solver.tinvS_append_restored_child"]
 MODELLED = ["Solver", "SolverCacheless", "SolverStrings", "SolverCompositeChild"]
 OTHERS = ["SolverComposite", "SolverHybrid", "SolverReplacement"]
 WEIGHTS = {"add": 22, "satisfiable": 8, "eval": 14, "batch_eval": 4, "min": 9, "max": 9, "solution": 6, "simplify": 4, "downsize": 2,
